@@ -1,6 +1,7 @@
 import NixModel.Pure.Units
 import NixModel.Lemmas.UnitsLemmas
 import NixModel.Lemmas.UnitsRel
+import NixModel.Lemmas.UnitsCompound
 
 /-!
 # C09 — SI unit recognition and scaling are exact and consistent
@@ -151,6 +152,54 @@ theorem scaling_identity (a : Str) (h : isSi a = true) : scaling a a = .ok 1 := 
 theorem scaling_refused_iff_not_scalable (a b : Str) :
     scaling a b = .error .invalidUnit ↔ scalable a b = false := scaling_refused_iff a b
 
+
+/-! ## Compounds of any length, `invert_power`, `split_compound`
+
+Over `Pure/UnitsCompound.lean` (the code after the `fix:` commits 95294ad / 7be83b8) and the branch table of
+`invert_power`, the separator lookahead and the remainder clean-up regenerated into
+`Generated/UnitsCompound.lean`.  `ValidAtom a`: `a = prefix ++ unit ++ w` from the tables with any power text;
+`ValidSeq l`: every separator is `*` or `/` and every atom valid; `joinCompound a₀ [(s₁,a₁),…]` is the text
+`a₀ s₁ a₁ s₂ a₂ …`. -/
+
+/-- a `*`/`/`-joined sequence of two or more atoms, of any length, is compound and SI -/
+theorem compound_sequence (a₀ : Str) (l : List (Char × Str)) (ha : ValidAtom a₀) (hl : ValidSeq l)
+    (hne : l ≠ []) :
+    isCompound (joinCompound a₀ l) = true ∧ isSi (joinCompound a₀ l) = true :=
+  compound_seq a₀ l ha hl hne
+
+/-- `invert_power` negates the power of every table atom: the result is that prefix and unit with the power
+text of the opposite sign (`^-1` when there was none), again atomic, and its value is the negated value -/
+theorem invert_power_negates (p u w : Str) (hp : p ∈ optPrefixes) (hu : u ∈ units) (hw : PowerText w) :
+    Compound.invertPower (p ++ u ++ w) = p ++ u ++ negPow w ∧ PowerText (negPow w) ∧
+    powVal (negPow w) = - powVal w ∧ isAtomic (Compound.invertPower (p ++ u ++ w)) = true ∧
+    split (Compound.invertPower (p ++ u ++ w)) = (p, u, (negPow w).drop 1) := by
+  have h := invertPower_atom p u w hp hu hw
+  have hn := negPow_PowerText w hw
+  rw [h]
+  exact ⟨rfl, hn, powVal_negPow w hw, (atomic_generic p u (negPow w) hp hu hn).1,
+    split_generic p u (negPow w) hp hu hn⟩
+
+/-- inverting twice gives back the same prefix, unit and power value -/
+theorem invert_power_twice (p u w : Str) (hp : p ∈ optPrefixes) (hu : u ∈ units) (hw : PowerText w) :
+    Compound.invertPower (Compound.invertPower (p ++ u ++ w)) = p ++ u ++ negPow (negPow w) ∧
+    powVal (negPow (negPow w)) = powVal w := by
+  have hn := negPow_PowerText w hw
+  rw [invertPower_atom p u w hp hu hw, invertPower_atom p u (negPow w) hp hu hn,
+    powVal_negPow _ hn, powVal_negPow w hw]
+  exact ⟨rfl, Int.neg_neg _⟩
+
+/-- `split_compound` returns the atoms of a sequence of any length, in order, the ones after `/` inverted;
+every returned element is again a table atom -/
+theorem split_compound_sequence (a₀ : Str) (l : List (Char × Str)) (ha : ValidAtom a₀) (hl : ValidSeq l) :
+    Compound.splitCompound (joinCompound a₀ l) = some (a₀ :: expectAtoms l) ∧
+    ∀ x ∈ a₀ :: expectAtoms l, ValidAtom x :=
+  ⟨splitCompound_seq a₀ l ha hl, expectAtoms_valid a₀ l ha hl⟩
+
+/-- joining atoms with `*` and splitting again gives exactly the atoms -/
+theorem split_compound_roundtrip (a₀ : Str) (as : List Str) (ha : ValidAtom a₀) (has : ∀ a ∈ as, ValidAtom a) :
+    Compound.splitCompound (joinCompound a₀ (as.map fun a => ('*', a))) = some (a₀ :: as) :=
+  splitCompound_roundtrip a₀ as ha has
+
 /-! Non-vacuity: the hypotheses are met by concrete table entries. -/
 example : (['m'] ∈ optPrefixes) ∧ (['m', 'o', 'l'] ∈ units) ∧ (['^', '-', '2'] ∈ powerTexts) := by
   decide
@@ -162,5 +211,11 @@ example : ∀ w ∈ powerTexts, PowerText w := powerTexts_PowerText
 example : split "damol^+120".toList = ("da".toList, "mol".toList, "+120".toList) := by decide +kernel
 example : scaling "mm^-12".toList "m^-12".toList = .ok ((10 : Rat) ^ (36 : Int)) := by decide +kernel
 example : scalable "mV/Hz".toList "mV/Hz".toList = true := by decide +kernel
+example : ValidAtom "mmol^-2".toList :=
+  ⟨"m".toList, "mol".toList, "^-2".toList, by decide, by decide, .pow ['-'] '2' [] (by simp) (by decide) (by decide), rfl⟩
+example : Compound.splitCompound "mmol/l^2*Sv^+3/kat^-2".toList =
+    some ["mmol".toList, "l^-2".toList, "Sv^+3".toList, "kat^2".toList] := by decide +kernel
+example : joinCompound "mV".toList [('/', "s^2".toList), ('*', "mol".toList)] = "mV/s^2*mol".toList := by decide
+example : Compound.invertPower "s^+12".toList = "s^-12".toList := by decide +kernel
 
 end Nix.C09
